@@ -18,6 +18,18 @@ LEVEL = "proof"
 TRUSTED = ["numpy log (libm) for SEDI: log is an uninterpreted function in the theorems"]
 ASSUMPTIONS = ["counts are exactly representable (integers / dyadic) so float + and * are exact; quotients compared to 1e-9",
                "float rounding, overflow and signed zero are not modelled"]
+MANIFEST = dict(
+    level="proof",
+    text="Kernel-checked Lean theorems about definitions regenerated from contingency_impl.py on every run: each of the 19 "
+         "metrics equals its documented expression as a total IEEE-like function of the counts (all values incl. zero cells, "
+         "NaN, inf), 16 alias equalities, fp<->fn swap laws for all count values, closed 2x2 forms and zero-cell "
+         "classification; tied to the code by the translator plus an exhaustive correspondence over all tables up to a "
+         "total and random larger ones.",
+    note="Trusted: Lean kernel; propext/Classical.choice/Quot.sound; py2lean translator; SV.Fl (IEEE minus rounding, overflow, "
+         "signed zero); libm log for SEDI is uninterpreted; harness tolerance 1e-9 on integer inputs; non-finite results of "
+         "composite metrics whose intermediate quotient is not exactly representable are skipped (rounding-decided).",
+    technique="Lean 4 theorems over translator-regenerated definitions + exhaustive differential correspondence",
+    design="6/C09")
 RULE = ("tables (tp,fp,fn,tn) enumerated exhaustively up to a total, then random larger / multi-dimensional; "
         "distinct = distinct table; non-trivial = total > 0")
 
